@@ -18,9 +18,9 @@ import (
 	"github.com/ajitpratap0/GoSQLX/pkg/linter/rules/keywords"
 	"github.com/ajitpratap0/GoSQLX/pkg/linter/rules/style"
 	"github.com/ajitpratap0/GoSQLX/pkg/linter/rules/whitespace"
+	sqlkw "github.com/ajitpratap0/GoSQLX/pkg/sql/keywords"
 	"github.com/ajitpratap0/GoSQLX/pkg/sql/parser"
 	"github.com/ajitpratap0/GoSQLX/pkg/sql/tokenizer"
-	sqlkw "github.com/ajitpratap0/GoSQLX/pkg/sql/keywords"
 	"pgregory.net/rapid"
 	"verif/gen/corrupt"
 	"verif/gen/sqlgen"
@@ -534,7 +534,7 @@ func genLintContent(rt *rapid.T) (string, string) {
 }
 
 func TestCLIVerdict(t *testing.T) {
-	hx.Rule("cli_verdict", "the gosqlx binary built from the tree under test on generated file sets (1-4 files: valid, multi-statement, corrupted, empty, stray semicolons, MySQL-only syntax; names with spaces) x validate (text/json/sarif, --strict, --dialect, -q, --output-file) / format (-i, --check, --compact, --no-uppercase, --indent) / lint (--fail-on-warn) / parse: exit status 0 iff the library (same dialect/strict options, CLI rule set) accepts every input; check-only modes leave every file byte-identical (hash, mode, mtime); JSON and SARIF reports parse, carry consistent counts and name exactly the failing inputs; -i never rewrites a file whose processing failed; non-trivial = mixed valid/invalid set; distinct = command + flags + verdict vector")
+	hx.Rule("cli_verdict", "the gosqlx binary built from the tree under test on generated file sets (1-4 files: valid, multi-statement, corrupted, empty, stray semicolons, MySQL-only syntax; names with spaces) x validate (text/json/sarif, --strict, --dialect, -q, --output-file) / format (-i, --check, both together, --compact, --no-uppercase, --indent) / lint (--fail-on-warn) / parse: exit status 0 iff the library (same dialect/strict options, CLI rule set) accepts every input; check-only modes leave every file byte-identical (hash, mode, mtime); JSON and SARIF reports parse, carry consistent counts and name exactly the failing inputs; -i never rewrites a file whose processing failed; non-trivial = mixed valid/invalid set; distinct = command + flags + verdict vector")
 	if _, err := build(); err != nil {
 		t.Fatalf("HARNESS: %v", err)
 	}
@@ -575,9 +575,7 @@ func TestCLIVerdict(t *testing.T) {
 					c.Flags = append(c.Flags, fl)
 				}
 			}
-			if has(c.Flags, "-i") && has(c.Flags, "--check") {
-				c.Flags = c.Flags[1:]
-			}
+			// -i together with --check: the check-only mode wins, no file may change (oracle: --check branch)
 			if rapid.IntRange(0, 3).Draw(rt, "indent") == 0 {
 				c.Flags = append(c.Flags, "--indent", rapid.SampledFrom([]string{"0", "4", "8"}).Draw(rt, "iv"))
 			}
